@@ -112,8 +112,8 @@ where
     | _, _ => []
 
 def lcM (cfg : GenCfg) (isCap : Bool) (n : Node) (f : Form) (v : Val) (p : List Seg) : LcOut :=
-  match rootOf f with
-  | .early => (match f with | .untypedNil => .untouched | _ => .unsupported)
+  match rootOfC cfg f with
+  | .early => (match f with | .untypedNil => .untouched | .foreign => .unsupported | _ => .val 0)
   | .panic => .panic
   | .nilX =>
     -- `*result=0`, then: root maps nil-check x; struct/slice roots test `len(path)==0` before touching x
